@@ -9,7 +9,9 @@ FlowIRConcrete.  The transition function is the code under check; nothing of it 
 * After EVERY transition a differential oracle runs on the reached object: for every (component, platform) the
   cached flavour of get_component_configuration must equal the same query on a FlowIRConcrete built from scratch from
   raw() (or both must raise the same error class); the returned dict is then scrambled in place and the query is
-  repeated twice more (private-copy clause).
+  repeated twice more (private-copy clause).  The flavours that by-pass the cache (raw=True, include_default=False)
+  are compared afterwards, and finally the description must still answer as before (no leak of scrambled results).
+* Failing observations are grouped by class; the two shortest histories of each class are handed to the runner.
 """
 import hashlib
 import os
@@ -23,36 +25,47 @@ EXHAUSTIVE = True
 PLATFORMS = ('default', 'P')
 DEPTH = {'quick': 3, 'thorough': 5}
 # thorough additionally explores the three documents with the *other* active platform to this depth
-DEPTH_SWAPPED = {'quick': 0, 'thorough': 3}
+DEPTH_SWAPPED = {'quick': 0, 'thorough': 4}
 
 RULE = (
-    'BFS over ALL histories (length <= 3 quick, <= 4 thorough) of the per-document alphabet of 24-25 real operations: '
+    'BFS over ALL histories (length <= 3 quick, <= 5 thorough) of the per-document alphabet of 24-25 real operations: '
     'for c in {c0,c1}: setOptionForNode(c,"v"), removeOptionForNode(c,"v"), setOptionForNode(c,"#command.arguments"), '
     'setOptionForNode(c,"#resourceRequest.numberThreads"), removeOptionForNode(c,"#command.arguments"), '
-    'update_component(c), delete_component(c), cached query of c on platform default and on platform P; '
-    'set_global_variable, set_stage_variable (each stage in use), set_platform_global_variable(P), '
-    'set_platform_stage_variable(P), add_component(new c2), add_component(c1 again). 3 initial documents '
-    '(layered variables + same name in two stages; blueprint + platform override + prefix-colliding names on active '
-    'platform P; a replicated (flattened) configuration with an unresolvable variable and an unknown platform P); '
-    'thorough adds the same documents with the other active platform to depth 3. States with equal canonical key '
-    '(raw() + cache labels/digests) are merged, the lexicographically smallest history of the first level that reaches '
-    'a state represents it. Every transition is judged by the full oracle (3 components x 2 platforms x 3 rounds). '
-    'A history is non-trivial when it contains at least one mutator and at least one cached query; distinct = '
-    'distinct (document, history).  Excluded (grey zone): component names with regular-expression meta characters '
-    'other than ".", update_component with a description whose stage/name differ from the id, writes through live '
-    'references obtained with return_copy=False, concurrent callers.')
+    'update_component(c), delete_component(c), cached query of c on platform default and on platform P '
+    '(configurationForNode when it is the active platform); set_global_variable, set_stage_variable (each stage in '
+    'use), set_platform_global_variable(P), set_platform_stage_variable(P), add_component(new c2), '
+    'add_component(c1 again). 3 initial documents, each wrapped by the real FlowIRExperimentConfiguration constructor: '
+    '"layered" (global/stage/platform variables, the same name in two stages, active platform default), "override" '
+    '(blueprints + component override for P + prefix-colliding names A/AB/A.B, active platform P), "flattened" (a '
+    'replicated primitive=False configuration with an unresolvable variable, names x / x.y / xy and a platform P that '
+    'does not exist until a mutator creates it); thorough adds the same documents with the other active platform to '
+    'depth 4. States with equal canonical key (active platform + raw() with the component list as a set + cache '
+    'labels/digests) are merged; the lexicographically smallest history of the first level that reaches a state '
+    'represents it. Every transition is judged by the full oracle: 3 components x 2 platforms x 3 rounds (query, '
+    'scramble result, query, scramble, query) of the cached flavour, then the two uncached flavours (raw=True; '
+    'include_default=False) for c0,c1 on the active platform (results scrambled too), then a check that the scrambled results did '
+    'not leak into the description; a query operation of the history is itself judged against the description it was '
+    'asked on. A history is non-trivial when it contains at least one mutator and at least one cached query; '
+    'distinct = distinct (document, history). Excluded (grey zone): component names with regular-expression meta '
+    'characters other than ".", update_component with a description whose stage/name differ from the id, writes '
+    'through live references obtained with return_copy=False, DoWhile documents, concurrent callers.')
 
 ASSUMPTIONS = [
     '"computed from scratch from the current description" = FlowIRConcrete(obj.raw(), active platform, documents={}) '
-    'built anew for every (component, platform) pair, asked with the same arguments',
+    'built anew for every (component, platform, flavour), asked with the same arguments',
     '"resolved configuration" = get_component_configuration(comp, include_default=True, platform=p) with the other '
-    'arguments at their defaults (the flavour that is cached; it is what configurationForNode returns)',
+    'arguments at their defaults (the flavour that is cached; it is what configurationForNode returns); the raw=True '
+    'and include_default=False flavours are compared as well on the active platform',
     'when the from-scratch query raises, the live query must raise the same exception class (messages not compared); '
     'whether a *mutator* should have raised is not judged, the state it leaves behind is explored like any other',
     'a description from which no FlowIRConcrete can be built at all is not judged (counted as scratch-unbuildable)',
     'single caller, no concurrency (the cache lock is not under test)',
-    'merging states on the canonical key assumes the future of a FlowIRConcrete depends only on _flowir, the '
-    '_component_dictionary view of it and _cache (dict insertion order is deliberately ignored)',
+    'merging states on the canonical key assumes the future of a FlowIRConcrete depends only on its active platform, '
+    '_flowir, the _component_dictionary view of it and _cache; dict insertion order and the order of the component '
+    'list are deliberately ignored (the latter depends on string hashing for a replicated configuration)',
+    'fresh objects re-use one FlowIRExperimentConfiguration wrapper per process whose _concrete is replaced by '
+    'FlowIRConcrete(description produced by the real constructor); the equivalence is verified at start-up',
+    'failing observations are grouped by class (sig); two shortest cases per class are reported, the rest counted',
 ]
 
 MC_EXPLANATION = (
@@ -506,16 +519,13 @@ def oracle(col, sink, spec, conf, history, raw, dkey):
             e = exp[(cid, p, fname)]
             if e[0] == 'unbuildable':
                 continue
-            for phase in ('first', 'second'):
-                col.count('oracle_comparisons')
-                got = _ask(conc, cid, p, kw)
-                if not judge(col, sink, spec, history, raw, got, e, (cid, p, fname), phase, _label(p, cid) in labels):
-                    break
-                if got[0] != 'ok':
-                    break
-                scramble(got[1])
-            else:
-                col.outcome('flavour:%s:equal' % fname)
+            col.count('oracle_comparisons')
+            got = _ask(conc, cid, p, kw)
+            if not judge(col, sink, spec, history, raw, got, e, (cid, p, fname), 'first', _label(p, cid) in labels):
+                continue
+            col.outcome('flavour:%s:%s' % (fname, 'equal' if got[0] == 'ok' else 'both-raise-' + got[1]))
+            if got[0] == 'ok':
+                scramble(got[1])     # a leak shows in the next query or in the description check below
     # the scrambled dicts must not have been wired into the description: what a from-scratch object answers for the
     # description as it is NOW must be what it answered before the queries (getters may add empty sections, which is
     # why descriptions are not compared literally)
